@@ -33,9 +33,26 @@ def schedules(c):
     return scheds
 
 
+def liveness(c):
+    """MC_GitBugLive.tla: after editing stops, fair pushes / fetches / merges lead to (and keep) identical replicas."""
+    import os
+    d = c.specdir()
+    maxc, reps = (7, "A, B") if c.tier == "quick" else (8, "A, B")
+    for name, spec in (("MC_GitBugLive_run.cfg", "LSpec"), ("MC_GitBugLive_nomerge_run.cfg", "LSpecNoMerge")):
+        with open(os.path.join(d, name), "w") as f:
+            f.write("SPECIFICATION %s\nCONSTANTS\n  Replica = {%s}\n  NBug = 1\n  Author = {u1, u2}\n  MaxHop = 1000\n  MaxCommit = %d\n  RankDir = 1\n"
+                    "  WithRestart = FALSE\n  LoaderLess = FALSE\n  Reserve = 3\nINVARIANTS AllReadable\nPROPERTY EventuallySame\nCHECK_DEADLOCK FALSE\n" % (spec, reps, maxc))
+    c.tlc_model("MC_GitBugLive", "MC_GitBugLive_run.cfg", timeout=3000, label="liveness: editing stops, fair synchronisation => eventually always identical replicas (<= %d commits)" % maxc)
+    r = c.tlc("MC_GitBugLive", "MC_GitBugLive_nomerge_run.cfg", timeout=3000, label="witness: without fair merges convergence must fail")
+    if "EventuallySame" not in r.out or "violated" not in r.out:
+        raise Broken("the liveness property holds without fair merges: it says nothing (vacuity guard)")
+
+
 def run(c, inv=INV, bind=(True, False, False), sched_fn=schedules, mut=mutate, cls=classify, restart=False, skip_exhaustive=False):
     if not skip_exhaustive:
         gb.exhaustive(c, inv, restart=restart)
+    if c.pid == "C01":
+        liveness(c)
     scheds = sched_fn(c)
     if len(scheds) < 10:
         raise Broken("only %d schedules generated" % len(scheds))
